@@ -121,7 +121,19 @@ theorem binS_sound (w : World) (chk : Bool) (op : BinOp) {x y : SVal} {vx vy : V
               simp only [evalBin, hg, if_false, hlt, if_true]
               exact ⟨_, rfl, length_constV _ _, by rw [den_constV, Nat.mod_eq_of_lt hlt]⟩
             · exact absurd h (by simp)
-          · exact absurd h (by simp)
+          · split at h
+            · rename_i hdis
+              obtain ⟨hnt, rfl⟩ := mkInt_ok h
+              have ht : t = t' := by
+                have := hg; simp only [not_or, Decidable.not_not] at this; exact this.1
+              subst ht
+              have hsum := den_add_disjoint w.raw w.fv a b (by rw [hla, hlb]) hdis hnt
+              have hlen : (List.zipWith Src.or a b).length = t.bits := by simp [hla, hlb]
+              have hlt : den w.raw w.fv a + den w.raw w.fv b < 2 ^ t.bits := by
+                rw [← hsum, ← hlen]; exact den_lt _ _ _
+              simp only [evalBin, hg, if_false, hlt, if_true]
+              exact ⟨_, rfl, hlen, by rw [hsum]⟩
+            · exact absurd h (by simp)
       | sub =>
         simp only [binS] at h
         split at h
